@@ -22,19 +22,20 @@ theorem termOf_of_prefix_closed {a b : List Down} {c : Option Err} (h : termOf a
 /-- the semantic function of a stage: outputs before the first failure, and that failure -/
 abbrev SemFn := List Val → List Val × Option Err
 
-/-- what a stage has sent (`outs`) against what it has handled (`ins`), as contents -/
-structure SpecM (F : SemFn) (ins outs : List Down) : Prop where
+/-- what a stage has sent (`outs`) against what it has handled (`ins`), as contents; `P` restricts the ideal
+    inputs `X` the error clause speaks about (e.g. homogeneous element types) -/
+structure SpecM (P : List Val → Prop) (F : SemFn) (ins outs : List Down) : Prop where
   wfOut : wf outs = true
   pre1 : elemsOf outs <+: (F (elemsOf ins)).1
   pre2 : termOf ins ≠ some none → ∀ X, elemsOf ins <+: X → elemsOf outs <+: (F X).1
   compl : termOf outs = some none →
     termOf ins = some none ∧ (F (elemsOf ins)).2 = none ∧ elemsOf outs = (F (elemsOf ins)).1
   err : ∀ e, termOf outs = some (some e) →
-    termOf ins = some (some e) ∨ ∀ X, elemsOf ins <+: X → (F X).2 = some e
+    termOf ins = some (some e) ∨ ∀ X, elemsOf ins <+: X → P X → (F X).2 = some e
 
 /-- the specification survives further input (the stage's output frozen) -/
-theorem SpecM.extend {F : SemFn} {ins outs : List Down} (h : SpecM F ins outs) (t : List Down) :
-    SpecM F (ins ++ t) outs := by
+theorem SpecM.extend {P : List Val → Prop} {F : SemFn} {ins outs : List Down} (h : SpecM P F ins outs) (t : List Down) :
+    SpecM P F (ins ++ t) outs := by
   cases hc : termOf ins with
   | some c =>
     obtain ⟨h1, h2⟩ := termOf_of_prefix_closed (b := t) hc
@@ -53,7 +54,12 @@ theorem SpecM.extend {F : SemFn} {ins outs : List Down} (h : SpecM F ins outs) (
     · intro e ho
       rcases h.err e ho with h1 | h1
       · rw [hc] at h1; simp at h1
-      · exact Or.inr fun X hX => h1 X (hpre.trans hX)
+      · exact Or.inr fun X hX hP => h1 X (hpre.trans hX) hP
+
+/-- the error clause for a larger class of ideal inputs implies the one for a smaller class -/
+theorem SpecM.weaken {P Q : List Val → Prop} {F : SemFn} {ins outs : List Down} (hPQ : ∀ X, P X → Q X)
+    (h : SpecM Q F ins outs) : SpecM P F ins outs :=
+  ⟨h.wfOut, h.pre1, h.pre2, h.compl, fun e he => (h.err e he).imp id fun h1 X hX hP => h1 X hX (hPQ X hP)⟩
 
 /-! ### composition -/
 
@@ -65,8 +71,8 @@ structure Approx (up : List Down) (X : List Val) (es : List Err) : Prop where
   err : ∀ e, termOf up = some (some e) → e ∈ es
 
 /-- one stage: its input history is a prefix of what the upstream link carries -/
-theorem Approx.step {up ins rest outs : List Down} {X : List Val} {es : List Err} {F : SemFn}
-    (hup : Approx up X es) (hlink : up = ins ++ rest) (hs : SpecM F ins outs) :
+theorem Approx.step {P : List Val → Prop} {up ins rest outs : List Down} {X : List Val} {es : List Err} {F : SemFn}
+    (hup : Approx up X es) (hlink : up = ins ++ rest) (hs : SpecM P F ins outs) (hP : P X) :
     Approx outs (F X).1 (es ++ (F X).2.toList) := by
   have hxs : elemsOf ins <+: X := by
     have := elemsOf_prefix ins rest; rw [← hlink] at this; exact this.trans hup.pre
@@ -90,7 +96,7 @@ theorem Approx.step {up ins rest outs : List Down} {X : List Val} {es : List Err
     · obtain ⟨h1, _⟩ := termOf_of_prefix_closed (b := rest) hi
       rw [← hlink] at h1
       exact List.mem_append_left _ (hup.err e h1)
-    · have := hi X hxs
+    · have := hi X hxs hP
       exact List.mem_append_right _ (by rw [this]; simp)
 
 end GoaktVerif.C45
